@@ -119,6 +119,7 @@ class SimHandler:
         self.w = world
         self.counts = collections.Counter()
         self.raise_at = {}         # (event, nth) -> True
+        self.kick_at = {}          # (event, nth) -> (client index to disconnect from inside the handler, shutdown?)
         self.stall_at = {}         # nth update -> seconds
         self.ops = collections.deque()
         self.echo = None
@@ -145,6 +146,17 @@ class SimHandler:
         else:
             w.update_threads.add(th)
             w.n_updates += 1
+        kick = self.kick_at.get((kind, n))
+        if kick is not None:
+            target = w.ctxt.connections.get(client_addr(kick[0]))
+            if target is not None and target is not client:
+                w.app_event("S", self.cid(target), "server_disconnect_call")
+                w.probe("kick_from_inside_" + kind + "_handler")
+                target.disconnect()
+            if kick[1]:
+                w.shutdown_t = k.now if w.shutdown_t is None else min(w.shutdown_t, k.now)
+                w.probe("shutdown_from_inside_handler")
+                w.ctxt.shutdown()
         if (kind, n) in self.raise_at:
             w.probe("handler_raised_" + kind)
             raise RuntimeError("injected handler exception in %s #%d" % (kind, n))
@@ -519,7 +531,7 @@ class World:
             self.exc("S", kind, e, op)
 
     def op_shutdown(self, op):
-        self.shutdown_t = self.k.now
+        self.shutdown_t = self.k.now if self.shutdown_t is None else min(self.shutdown_t, self.k.now)
         self.probe("shutdown_with_%d_clients" % min(len(self.ctxt.connections), 3))
         self.k.rec("shutdown", op.get("how"))
         if op.get("how") == "stop" and self.tserver is not None:
@@ -545,7 +557,12 @@ class World:
 
             def _recv_datagram(conn, hdr, datagram):
                 pre = [m.pre_recv(conn, hdr, datagram) for m in mon_recv]
-                res = orig(conn, hdr, datagram)
+                try:
+                    res = orig(conn, hdr, datagram)
+                except Exception as e:      # noqa: the oracles still see the state the call left behind
+                    for m, p in zip(mon_recv, pre):
+                        m.post_recv(conn, hdr, datagram, p, "raised:" + type(e).__name__)
+                    raise
                 for m, p in zip(mon_recv, pre):
                     m.post_recv(conn, hdr, datagram, p, res)
                 return res
@@ -694,6 +711,8 @@ class World:
                         k.at(op["t"], self.snode, self.op_shutdown, op, tag="reactor")
                     elif op["op"] == "hraise":
                         self.handler.raise_at[(op["event"], op["nth"])] = True
+                    elif op["op"] == "hkick":
+                        self.handler.kick_at[(op["event"], op["nth"])] = (op["c"], bool(op.get("shutdown")))
                     elif op["op"] == "hstall":
                         self.handler.stall_at[op["nth"]] = op["d"]
                     elif op["op"] in self.custom_ops and op.get("global"):
